@@ -210,7 +210,7 @@ pub fn run(ctx: &Ctx) -> (CheckMeta, Acc) {
             "rustc, cosmwasm-std Uint256/Decimal256 are the system under test together with the pair helpers; the oracle uses the `uint` crate U1024 only".to_string(),
             "Err(SwapOverflowError) is accepted iff the reported spread field itself exceeds 128 bits".to_string(),
         ],
-        obligations: vec!["pure.ok".into(), "check.R".into(), "check.E".into()],
+        obligations: vec!["pure.ok".into(), "check.R".into(), "check.E".into(), "check.E.simulation".into()],
     };
     (meta, total)
 }
